@@ -180,7 +180,8 @@ def listMd (conns : List Conn) : String := renderMd (table conns)
 -- ------------------------------------------------------------------------------------------
 -- dot (shared with the diff)
 
-def ingressPodName : String := "ingress-controller"
+/-- `common.IngressPodString`: the string of the peer of the pod the analysis adds for Ingress / Route objects -/
+def ingressPodString : String := "{ingress-controller}"
 
 /-- `dotformatting.GetEdgeLine` -/
 def edgeLine (src dst label color fontColor : String) : String :=
@@ -191,8 +192,9 @@ def edgeLine (src dst label color fontColor : String) : String :=
 def nodeLine (str label color : String) : String :=
   "\t" ++ goQuote str ++ " [label=" ++ goQuote label ++ " color=" ++ goQuote color ++ " fontcolor=" ++ goQuote color ++ "]"
 
-/-- not drawn inside a namespace cluster: IP blocks and every peer whose `Name()` is `ingress-controller` -/
-def PeerInfo.external (p : PeerInfo) : Bool := p.isIP || p.name == ingressPodName
+/-- not drawn inside a namespace cluster: IP blocks and the ingress-controller peer the analysis adds (recognised by its
+peer string; a workload of the input named `ingress-controller` is `namespace/ingress-controller[Kind]`) -/
+def PeerInfo.external (p : PeerInfo) : Bool := p.isIP || p.str == ingressPodString
 
 /-- `peerNameAndColorByType` / `getNodePeerLabelAndType`: the node label -/
 def PeerInfo.label (p : PeerInfo) : String := if p.external then p.str else p.name ++ "[" ++ p.kind ++ "]"
@@ -263,7 +265,7 @@ def DConn.info (d : DConn) : String :=
 def DConn.row (d : DConn) : DRow := ⟨d.typ, d.src.str, d.dst.str, d.c1, d.c2, d.info⟩
 
 /-- `isIngressControllerPeer(c.Src())` -/
-def DConn.isIngress (d : DConn) : Bool := d.src.name == ingressPodName
+def DConn.isIngress (d : DConn) : Bool := d.src.str == ingressPodString
 
 /-- one block of `writeDiffLinesOrderedByCategory`: the entries of a category and kind, as lines, `sort.Strings` -/
 def diffPart (line : DRow → String) (ds : List DConn) (ing : Bool) (typ : String) : List String :=
@@ -650,29 +652,9 @@ def reportX (objs : List Obj) (focus : String) (stop : Bool := false) : Except E
             match ingressEntriesX eng objs owners focus with
             | .error e => .error e
             | .ok ing =>
-              -- `includePairWithRepresentativePeer` skips every pair of a representative peer and a peer whose `Name()`
-              -- is `ingress-controller` — the pseudo peer, but also a real workload of that name: such a workload
-              -- keeps its general exposure data (unprotected / entire cluster) and gets no entry per representative peer
-              let xf := xs.filterMap fun p => (peers.find? (·.str == p.name)).bind fun lp =>
-                let info := PeerInfo.ofLPeer lp
-                if info.name == ingressPodName then
-                  let il := p.ing.filter (·.entireCluster)
-                  let gl := p.eg.filter (·.entireCluster)
-                  let inIng := !p.ingProtected || !il.isEmpty
-                  let inEg := !p.egProtected || !gl.isEmpty
-                  if !inIng && !inEg then none
-                  else some (⟨info, p.ingProtected, il.map XData.ofXEntry, p.egProtected, gl.map XData.ofXEntry⟩ : XPeerF)
-                else some (⟨info, p.ingProtected, p.ing.map XData.ofXEntry, p.egProtected, p.eg.map XData.ofXEntry⟩ : XPeerF)
+              let xf := xs.filterMap fun p => (peers.find? (·.str == p.name)).map fun lp =>
+                (⟨PeerInfo.ofLPeer lp, p.ingProtected, p.ing.map XData.ofXEntry, p.egProtected, p.eg.map XData.ofXEntry⟩ : XPeerF)
               .ok ({ entries := entries ++ ing, peers := peers, dotPeers := dotPeers }, xf)
-
-/-- `updateNewOrLostFields`: IP blocks and every peer whose `Name()` is `ingress-controller` — the pseudo peer, but also
-a real workload of that name — are never flagged; otherwise the peer is new/lost when the other side's peer list does
-not hold its string. (`Diff.isWorkloadAbsent` exempts the pseudo peer only; the two agree unless a real workload is
-named `ingress-controller`.) -/
-def isNewOrLost (p : LPeer) (names : List String) : Bool :=
-  match p with
-  | .ip _ => false
-  | .wl n pod => !(podPeerName pod == ingressPodName) && !names.contains n
 
 /-- the classification step of `diffConnectionsLists`, keeping the peers (cf. `Diff.diffLists`) -/
 def classify (peers1 peers2 : List String) : String × Diff.Pair → Option DConn
@@ -682,9 +664,9 @@ def classify (peers1 peers2 : List String) : String × Diff.Pair → Option DCon
       let eq := a.all == b.all && a.ports == b.ports
       some ⟨if eq then "unchanged" else "changed", .ofLPeer a.src, .ofLPeer a.dst, a.connStr, b.connStr, false, false⟩
     | some a, none => some ⟨"removed", .ofLPeer a.src, .ofLPeer a.dst, a.connStr, Diff.noConns,
-        isNewOrLost a.src peers2, isNewOrLost a.dst peers2⟩
+        Diff.isWorkloadAbsent a.src peers2, Diff.isWorkloadAbsent a.dst peers2⟩
     | none, some b => some ⟨"added", .ofLPeer b.src, .ofLPeer b.dst, Diff.noConns, b.connStr,
-        isNewOrLost b.src peers1, isNewOrLost b.dst peers1⟩
+        Diff.isWorkloadAbsent b.src peers1, Diff.isWorkloadAbsent b.dst peers1⟩
     | none, none => none
 
 /-- `diffConnectionsLists` with the peers kept -/
